@@ -103,13 +103,14 @@ func testValidator() record.Validator {
 var c05Keys = []string{"/v/a", "/v/b", "/v/ca", "/w/a", "/v/xa", "/providers/a"} // several share the last byte (same lock stripe)
 
 type vsOp struct {
-	Op   string `json:"op"` // put get advance plant restart
-	Key  int    `json:"key"`
-	Rank int    `json:"rank,omitempty"`
-	Junk string `json:"junk,omitempty"`
-	Bad  string `json:"bad,omitempty"`  // put: "" | "tag" (value for another key) | "malformed"
-	Dur  int    `json:"dur,omitempty"`  // advance: seconds
-	Kind string `json:"kind,omitempty"` // plant: corrupt | misfiled | notime | invalid | foreign | provider
+	Op    string `json:"op"` // put get advance plant restart
+	Key   int    `json:"key"`
+	Rank  int    `json:"rank,omitempty"`
+	Junk  string `json:"junk,omitempty"`
+	Bad   string `json:"bad,omitempty"`   // put: "" | "tag" (value for another key) | "malformed"
+	Stamp string `json:"stamp,omitempty"` // put: receive time the caller's record carries: "" none | now | past | future | garbage
+	Dur   int    `json:"dur,omitempty"`   // advance: seconds
+	Kind  string `json:"kind,omitempty"`  // plant: corrupt | misfiled | notime | invalid | foreign | provider
 }
 
 type vsSc struct {
@@ -239,6 +240,20 @@ func runVS(t *testing.T, s vsSc) (res verifsim.Result) {
 					v = []byte("garbage")
 				}
 				rec := record.MakePutRecord(key, v)
+				// the receive time is a wire field: whatever the sender put there must not survive into the store
+				switch op.Stamp {
+				case "now":
+					rec.TimeReceived = internal.FormatRFC3339(time.Now())
+				case "past":
+					rec.TimeReceived = internal.FormatRFC3339(time.Now().Add(-1000 * time.Hour))
+				case "future":
+					rec.TimeReceived = internal.FormatRFC3339(time.Now().Add(1000 * time.Hour))
+				case "garbage":
+					rec.TimeReceived = "attacker-supplied"
+				}
+				if op.Stamp == "past" || op.Stamp == "future" {
+					res.Class("put-with-foreign-stamp")
+				}
 				prev := lastWrite(wl, dskey)
 				err := vs.Put(ctx, key, rec)
 				n0 := len(wl)
@@ -404,7 +419,7 @@ func TestVerif_C05_History(t *testing.T) {
 	verifsim.RunCheck(t, verifsim.Check[vsSc]{
 		Property: "C05", Part: "history",
 		Rule: "rapid state machine under synctest virtual time: 1-25 operations on 6 keys (shared lock stripes, two namespaces, the reserved providers namespace): put of valid/" +
-			"mis-tagged/malformed values with ranks 0-4, get, clock advance of fractions/multiples of the max record age (age disabled, 60 s, 3600 s), GC ticks, planted corrupt/" +
+			"mis-tagged/malformed values with ranks 0-4 whose record carries no / the current / a past / a future / a garbage receive time, get, clock advance of fractions/multiples of the max record age (age disabled, 60 s, 3600 s), GC ticks, planted corrupt/" +
 			"mis-filed/untimed/invalid/foreign/provider-subtree bytes, restart; oracle = invariants over the datastore write log (every stored record decodes, validates, is filed " +
 			"under its embedded key and stamped now; a replacement is never worse; only expired or planted entries are deleted; foreign keys untouched) and Get/Put outcomes derived " +
 			"from the log; non-trivial = a worse-after-better put or a read across an expiry",
@@ -421,7 +436,8 @@ func TestVerif_C05_History(t *testing.T) {
 					case 1:
 						bad = "malformed"
 					}
-					return vsOp{Op: "put", Key: key, Rank: rapid.IntRange(0, 4).Draw(t, "rank"), Junk: rapid.SampledFrom([]string{"", "a", "b"}).Draw(t, "junk"), Bad: bad}
+					return vsOp{Op: "put", Key: key, Rank: rapid.IntRange(0, 4).Draw(t, "rank"), Junk: rapid.SampledFrom([]string{"", "a", "b"}).Draw(t, "junk"), Bad: bad,
+						Stamp: rapid.SampledFrom([]string{"", "", "", "now", "past", "future", "garbage"}).Draw(t, "stamp")}
 				case 5, 6, 7:
 					return vsOp{Op: "get", Key: key}
 				case 8, 9:
